@@ -38,8 +38,27 @@ def always(c, m):
 PROPS = {}
 
 # ------------------------------------------------------------------ C06
+def oracle_expect(cases, impl, ctx):
+    n, bad = 0, []
+    for c in cases:
+        if c.tags.get("expect") is None:
+            continue
+        r = impl.get(c.id)
+        if r is None:
+            continue
+        n += 1
+        if r[0] != "0" or r[1] != c.tags["expect"]:
+            k = next((i for i, (x, y) in enumerate(zip(r[1], c.tags["expect"])) if x != y), min(len(r[1]), len(c.tags["expect"])))
+            bad.append(("output differs from the bytes the statement selects (large input)",
+                        {"why": "large input", "argv": [a.decode() for a in c.argv], "stdin_len": len(c.stdin), "status": r[0],
+                         "stdout_len": len(r[1]), "expected_len": len(c.tags["expect"]), "first_difference_at": k,
+                         "_cases": [c]}))
+    return n, bad
+
+
 PROPS["C06"] = dict(
-    gen=lambda rng, n, tier: F.bytes_mode(rng, n),
+    oracle=oracle_expect,
+    gen=lambda rng, n, tier: F.bytes_mode(rng, n) + F.c06_big(rng),
     budget=(3000, 30000),
     absolute=True,
     in_domain=always,
@@ -202,7 +221,7 @@ KF_CLASSES = {"lines_blank_input": kf_lines_blank_input}
 
 
 PROPS["C01"] = dict(
-    gen=lambda rng, n, tier: F.fields(rng, n),
+    gen=lambda rng, n, tier: F.fields(rng, n) + F.small_scope(rng, maxlen=(4 if tier == "quick" else 6), sample=(20 if tier == "quick" else None)),
     budget=(5000, 60000),
     absolute=True,
     in_domain=always,
@@ -249,6 +268,20 @@ def oracle_c08(cases, impl, ctx):
     n, bad = 0, []
     for c in cases:
         r = impl.get(c.id)
+        if r and c.tags.get("expect_json") is not None:
+            n += 1
+            ok = r[0] == "0"
+            if ok:
+                lines = [l for l in r[1].split(b"\n") if l]
+                try:
+                    ok = [J.loads(l.decode("utf-8"), strict=True) for l in lines] == c.tags["expect_json"]
+                except Exception:
+                    ok = False
+            if not ok:
+                bad.append(("--json output does not decode to the selected parts (large field)",
+                            {"why": "large field", "argv": [a.decode() for a in c.argv], "stdin_len": len(c.stdin),
+                             "status": r[0], "stdout_head_hex": r[1][:80].hex(), "_cases": [c]}))
+            continue
         if not r or r[0] != "0" or b"--json" not in c.argv:
             continue
         eol = b"\0" if b"-z" in c.argv else b"\n"
@@ -387,7 +420,7 @@ reg("C07", gen=lambda rng, n, tier: F.c07(rng, n), budget=(3000, 30000), absolut
     theorems=[], assumptions=["regex's \\b|\\B yields an empty match at every scalar boundary of a valid UTF-8 haystack "
                               "(assumed; exercised by this run)"])
 
-reg("C08", gen=lambda rng, n, tier: F.c08(rng, n), budget=(3000, 30000), absolute=True, oracle=oracle_c08,
+reg("C08", gen=lambda rng, n, tier: F.c08(rng, n) + F.c08_big(rng), budget=(3000, 30000), absolute=True, oracle=oracle_c08,
     rule="--json in -f and -c mode on valid UTF-8 with quotes, backslashes, U+0000-1F, U+007F, U+2028, astral "
          "characters; multi-byte delimiters, -g -p -t -s -m -z, fallbacks; every output line is also parsed by "
          "Python's strict json.loads",
@@ -399,7 +432,7 @@ reg("C11", gen=lambda rng, n, tier: F.c11(rng, n), budget=(3000, 30000), absolut
          "lane, -c, -l (both algorithms), --json and -M; option texts contain neither LF nor NUL",
     theorems=[], assumptions=["option texts (delimiter, replacement, fillers, fallbacks) contain neither LF nor NUL"])
 
-reg("C12", gen=lambda rng, n, tier: F.c12(rng, n, exhaustive_len=(3 if tier == "quick" else 4)),
+reg("C12", gen=lambda rng, n, tier: F.c12(rng, n, exhaustive_len=(3 if tier == "quick" else 4)) + F.small_scope(rng, maxlen=(4 if tier == "quick" else 5), sample=(15 if tier == "quick" else 60)),
     budget=(3000, 40000), absolute=True, oracle=oracle_c12, release=True,
     nontrivial=lambda c, m: True,
     rule="bounded-exhaustive bounds strings over {1,2,-,:,=,{,},comma,a,e-acute} up to length 3 (4 thorough) as "
